@@ -737,6 +737,11 @@ pub fn generate(pop: Pop, seed: u64, run: u64) -> Trace {
         if callback_faults == CallbackFaults::default() {
             callback_faults.clone_panic_at = Some(ctx.rng.below(len as u64 + 1) as u32);
         }
+        // unsync: sometimes the predicate of invalidate_entries_if panics instead
+        if cfg.kind == Kind::Unsync && ctx.rng.chance(1, 4) {
+            callback_faults = CallbackFaults::default();
+            callback_faults.pred_panic_at = Some(ctx.rng.below(12) as u32);
+        }
         // a third of the runs: the key's own Hash / Eq panics instead
         if ctx.rng.chance(1, 3) {
             callback_faults = CallbackFaults::default();
